@@ -379,3 +379,74 @@ def skipping_guards(b, node, relative_to=None):
                 continue
         out.append((unparse(test, 60), pol, owner))
     return out
+
+
+def message_text(ana: Analysis, fi: FuncInfo, expr) -> str:
+    """All string literals that can end up in the message built by `expr`: the literals written in it, and those of the values of
+    the names it mentions (a local assigned in the function, or a module-level constant of the function's module or an imported one)."""
+    seen, out = set(), []
+
+    def visit(e, depth=0):
+        for c in ast.walk(e):
+            if isinstance(c, ast.Constant) and isinstance(c.value, str):
+                out.append(c.value)
+            elif isinstance(c, ast.Name) and isinstance(c.ctx, ast.Load) and c.id not in seen and depth < 3:
+                seen.add(c.id)
+                for st in ast.walk(fi.node):
+                    if isinstance(st, (ast.Assign, ast.AnnAssign)) and st.value is not None:
+                        tg = st.targets if isinstance(st, ast.Assign) else [st.target]
+                        if any(isinstance(t, ast.Name) and t.id == c.id for t in tg):
+                            visit(st.value, depth + 1)
+                g = fi.module.globals.get(c.id)
+                if isinstance(g, (ast.Assign, ast.AnnAssign)) and g.value is not None:
+                    visit(g.value, depth + 1)
+                fq = fi.module.imports.get(c.id)
+                if fq and "." in fq:
+                    mod, nm = fq.rsplit(".", 1)
+                    m = ana.prog.modules.get(mod)
+                    if m is not None and isinstance(m.globals.get(nm), (ast.Assign, ast.AnnAssign)) and m.globals[nm].value is not None:
+                        visit(m.globals[nm].value, depth + 1)
+    visit(expr)
+    return " ".join(out)
+
+
+def ctor_args(ana: Analysis, cs) -> Dict[str, ast.expr]:
+    """field name -> argument expression of a constructor call, whether the argument was passed by keyword or by position
+    (dataclass field order, or the parameters of an explicit __init__)."""
+    call = cs.node if hasattr(cs, "node") else cs
+    out = {k.arg: k.value for k in call.keywords if k.arg is not None}
+    if not call.args:
+        return out
+    ci = getattr(getattr(cs, "callee", None), "cls", None)
+    if ci is None:
+        raise AnalysisError(f"positional constructor arguments at line {call.lineno} cannot be bound (class not resolved)")
+    init = ci.methods.get("__init__")
+    if init is not None:
+        names = [p_ for p_ in init.own_params if p_ not in ("self", "cls")]
+    else:
+        names = list(ci.fields)
+    for name, a in zip(names, call.args):
+        if isinstance(a, ast.Starred):
+            raise AnalysisError(f"starred constructor argument at line {call.lineno} cannot be bound statically")
+        out.setdefault(name, a)
+    return out
+
+
+def call_arg(ana: Analysis, cs, name: str, pos: Optional[int] = None) -> Optional[ast.expr]:
+    """The argument expression a call passes for parameter `name` of a package function (by keyword, or at the parameter's
+    position); `pos` is used when the callee is not resolved."""
+    call = cs.node
+    f = getattr(getattr(cs, "callee", None), "func", None)
+    if f is not None:
+        try:
+            ba = bind_args(f, call, skip_self=(f.kind in ("method", "classmethod") and isinstance(call.func, ast.Attribute)))
+        except AnalysisError:
+            ba = None
+        if ba is not None:
+            return ba.get(name)
+    for k in call.keywords:
+        if k.arg == name:
+            return k.value
+    if pos is not None and len(call.args) > pos and not any(isinstance(a, ast.Starred) for a in call.args[:pos + 1]):
+        return call.args[pos]
+    return None
